@@ -7,22 +7,11 @@ package smtp
 
 import (
 	"bufio"
-	"bytes"
 	"fmt"
-	"net"
 	"net/textproto"
 	"strings"
 	"testing"
-	"time"
 )
-
-type boundedRWC struct{ bytes.Buffer }
-
-func (*boundedRWC) Close() error { return nil }
-
-type boundedConn struct{ net.Conn }
-
-func (boundedConn) SetWriteDeadline(time.Time) error { return nil }
 
 func TestBoundedC17(t *testing.T) {
 	res := &boundedResult{name: "smtperror-wire-roundtrip", bound: "codes {421,450,451,452,550,552,554}; enhanced codes {unset, x.0.0, x.7.1, x.1.10, x.12.345} of the code's class; messages: all strings of length <= 5 over {a,5,.,-,space,%,LF} whose lines are non-empty and neither start nor end with a space"}
